@@ -2,13 +2,18 @@
 Tie: the cancellation instant is swept over the life of a run in each runner (before the call, during launch — with the
 pre-setsid window widened by a 9000-entry descriptor list —, while the program runs, around its natural end), a
 cancellation that lands after the program ended, Destroy while a call is in flight.  Observables: elapsed time,
-Result, liveness of the program afterwards; compared with the verdict the cancel LTS allows."""
+Result, liveness of the program afterwards; compared with the verdict the cancel LTS allows.
+Resource profiles: the cancelled program is not only an idle one under generous limits; programs that hold memory / have burnt CPU time
+close below the limits of the run (calibrated per runner from an uncancelled run) are cancelled too, and run uncancelled."""
 import os
+import time
 
 FINISH = dict(level="proof", rule=(
     "runs: {ptrace, namespace, container sync-before, container sync-after} x cancellation instants {before the call, "
     "0.05..3 ms, 10, 50 ms (program alive), around the program's own end at 120 ms, never} x {plain, 9000 listed descriptors}; "
-    "late cancellation after the program's end (exit 0 / exit 3 / fatal signal); Destroy 1..100 ms into an Execve.  "
+    "late cancellation after the program's end (exit 0 / exit 3 / fatal signal); Destroy 1..100 ms into an Execve; "
+    "resource profiles: {ptrace, namespace, container x2} x programs holding 6/14 MiB (thorough: 4..80 MiB) and/or having burnt CPU, with the limits of the run placed "
+    "so that the measured peak / CPU time is 30..99.5 % of the limit, cancelled 0..20 ms after the profile is reached, or never.  "
     "Non-trivial: a run that is cancelled while the program is alive; distinct = distinct (runner, instant, shape)."))
 
 
@@ -27,11 +32,13 @@ def run(c):
             # cancelled early: a long program, so that "promptly" can be a generous bound that a loaded machine meets and a lost
             # cancellation does not; cancelled around its own end, or not at all: a short one
             long_prog = 0 <= us <= 60000
-            cases.append({"id": len(cases), "kind": runner, "args": ["sleep", "1500" if long_prog else "120"], "cancel_us": us, "syncfunc": True})
+            cases.append({"id": len(cases), "kind": runner, "args": ["sleep", "6000" if long_prog else "120"], "cancel_us": us, "syncfunc": True})
         if runner in ("ptrace", "ns"):
             for us in ([0, 100, 300, 1000, 2000] if c.quick() else [0, 50, 100, 200, 300, 500, 800, 1000, 1500, 2000, 4000]):
                 for rep in range(2 if c.quick() else 6):
-                    cases.append({"id": len(cases), "kind": runner, "args": ["sleep", "400"], "cancel_us": us, "nfiles": 9000, "_wide": True})
+                    # (a long program here too: the launch with 9000 descriptors alone takes hundreds of ms on a loaded machine; a lost
+                    # cancellation still shows as Normal after 6 s, an honoured one is Time Limit Exceeded within the generous bound)
+                    cases.append({"id": len(cases), "kind": runner, "args": ["sleep", "6000"], "cancel_us": us, "nfiles": 9000, "_wide": True})
     # cancellations that land while the tracer is inside a trap (the program traps continuously; the policy bans or allows the call and
     # would refuse any path but the probed one): the verdict of a cancelled run is Time Limit Exceeded, nothing about the policy
     for rep in range(40 if c.quick() else 400):
@@ -94,17 +101,158 @@ def run(c):
         else:
             # cancelled well before the program's own end: it must not be allowed to run to completion
             if us + 60000 < prog_ms * 1000:
-                bound = us + (500000 if prog_ms >= 1000 else 60000) + (150000 if x.get("nfiles") else 0)
+                # "promptly": seconds, not milliseconds, so that a loaded machine meets it; the programs cancelled early live 6 s, so a
+                # lost cancellation shows as Normal (or as a run of 6 s) whatever the load
+                bound = us + (3000000 if prog_ms >= 1000 else 60000) + (150000 if x.get("nfiles") else 0)
                 if st != 2 or elapsed > bound:
                     c.finding_or_violation(canon("the cancellation was lost or late", status=st, elapsed_us=elapsed),
                                            {"case": x, "observed": o}, klass="lost:%s" % kind)
-            if elapsed > prog_ms * 1000 + 400000:
+            if elapsed > prog_ms * 1000 + 3000000:
                 c.finding_or_violation(canon("the run did not return promptly", elapsed_us=elapsed), {"observed": o})
         # (with sync after exec the callback is given the pid of the container init, which rightly lives on)
         if o["program_alive"] and kind != "container_after":
             c.finding_or_violation(canon("the program is still alive after the run returned"), {"observed": o})
+    profiles(c, exe, env)
     c.sample({"case": {k: v for k, v in cases[3].items() if not k.startswith("_")}, "observed": obs[3]})
     c.sample({"case": {k: v for k, v in cases[-1].items() if not k.startswith("_")}, "observed": obs[-1]})
     c.cov["runs"] = len(cases)
     c.cov["states"] = 3252 + 40
     c.cov["traces_validated_against_impl"] = len(cases)
+
+
+# ---------------------------------------------------------------- cancelled programs with a resource profile
+STATUS = {0: "Invalid", 1: "Normal", 2: "Time Limit Exceeded", 3: "Memory Limit Exceeded", 4: "Output Limit Exceeded", 5: "Disallowed Syscall",
+          6: "Signalled", 7: "Nonzero Exit Status", 8: "Runner Error"}
+BIG_MEM, BIG_TIME_MS = 1 << 30, 20000
+LIVE_MS = 8000           # how long the program lives on after it reached its profile (far longer than any bound below)
+RETURN_BOUND_US = 3000000  # a cancelled run returns within this time of the cancellation
+
+
+def profiles(c, exe, env):
+    """The verdict of a cancelled run says "time is up" whatever the program had consumed by then, as long as it stayed within its limits:
+    the user reads Memory Limit Exceeded as "the program needs more memory than allowed".  The limits are placed relative to the usage
+    the same runner measures for the same program in an uncancelled run."""
+    r = c.rng("profiles")
+    quick = c.quick()
+    t_start = time.time()
+    limited = ("ptrace", "ns")            # runners that are given a Limit and judge the usage against it
+    unlimited = ("container", "container_after")  # (the container reports the usage; the caller judges)
+    # (an idle probe program has a peak of about 2 MiB; first touches of memory are slow on a loaded virtual machine: moderate sizes)
+    mems = [6 << 20, 14 << 20] if quick else [4 << 20, 6 << 20, 14 << 20, 32 << 20, 80 << 20]
+    cpu_ms = 60
+    # -- calibration: the same program, uncancelled, under limits far away: what does this runner measure?
+    cal = []
+    for runner in limited:
+        for mem in mems:
+            cal.append({"id": len(cal), "kind": "profile", "runner": runner, "mem_bytes": mem, "cpu_ms": 0, "live_ms": 0,
+                        "limit_mem": BIG_MEM, "limit_time_ms": BIG_TIME_MS, "cancel_after_ready_us": -1})
+        cal.append({"id": len(cal), "kind": "profile", "runner": runner, "mem_bytes": 0, "cpu_ms": cpu_ms, "live_ms": 0,
+                    "limit_mem": BIG_MEM, "limit_time_ms": BIG_TIME_MS, "cancel_after_ready_us": -1})
+    peak, burnt = {}, {}
+    for x, o in zip(cal, c.run_harness(exe, cal, env=env, timeout=900)):
+        if "harness_err" in o:
+            raise RuntimeError(o["harness_err"])
+        c.count(("profile-calibration", x["runner"], x["mem_bytes"], x["cpu_ms"]), nontrivial=False, klass="profile:calibration")
+        if o.get("hang") or o.get("status") != 1 or not o.get("ready"):
+            c.finding_or_violation({"kind": "cancel-profile", "what": "an uncancelled run far below its limits did not end Normal", "runner": x["runner"],
+                                    "status": o.get("status"), "hang": bool(o.get("hang"))}, {"case": x, "observed": o}, klass="profile-calibration")
+            continue
+        if x["mem_bytes"]:
+            peak[(x["runner"], x["mem_bytes"])] = o["memory"]
+            if o["memory"] < x["mem_bytes"]:
+                raise RuntimeError("calibration: %s measured a peak of %d for a program that holds %d bytes" % (x["runner"], o["memory"], x["mem_bytes"]))
+        else:
+            burnt[x["runner"]] = o["time_us"]
+    # -- the profiles: (fraction of the memory limit the peak takes, fraction of the time limit the burnt CPU time takes)
+    # (the peak of one program varies by about 1.6 % from run to run: 0.98 is the closest place that is reliably below the limit)
+    fr = [(0.5, 0), (0.8, 0), (0.9, 0), (0.95, 0), (0.98, 0), (0.3, 0.85), (0.97, 0.85)]
+    if not quick:
+        fr += [(round(r.uniform(0.3, 0.995), 3), r.choice([0, 0, 0.5, 0.85])) for _ in range(24)] + [(0.875, 0), (0.88, 0), (0.99, 0), (0.995, 0), (0.75, 0.9)]
+    after = [0, 1000, 20000]
+    cases = []
+
+    def add(runner, mem, fm, ft, cancel):
+        if runner in unlimited:
+            # no limit to place: the profile alone (ft: does the program burn CPU first)
+            cases.append({"id": len(cases), "kind": "profile", "runner": runner, "mem_bytes": mem, "cpu_ms": cpu_ms if ft else 0, "live_ms": LIVE_MS,
+                          "limit_mem": BIG_MEM, "limit_time_ms": BIG_TIME_MS, "cancel_after_ready_us": cancel, "_fm": 0, "_ft": 0, "_calibrated_peak": None})
+            return
+        if (runner, mem) not in peak or (ft and runner not in burnt):
+            return
+        lm = int(peak[(runner, mem)] / fm) + 4096 if fm else BIG_MEM
+        lt = int(max(burnt[runner] / 1000.0, cpu_ms) / ft) + 1 if ft else BIG_TIME_MS
+        cases.append({"id": len(cases), "kind": "profile", "runner": runner, "mem_bytes": mem, "cpu_ms": cpu_ms if ft else 0, "live_ms": LIVE_MS if cancel >= 0 else 0,
+                      "limit_mem": lm, "limit_time_ms": lt, "cancel_after_ready_us": cancel, "_fm": fm, "_ft": ft, "_calibrated_peak": peak[(runner, mem)]})
+
+    for runner in limited:
+        for i, (fm, ft) in enumerate(fr):
+            # quick: each fraction with one of the two sizes; thorough: with one of the sizes (the smaller ones more often: first touches
+            # of memory cost up to 50 ms per MiB on a loaded virtual machine)
+            some = None if quick else r.choice([0, 0, 1, 1, 2, 2, 3, 3, 4])
+            for j, mem in enumerate(mems):
+                if (i + j) % 2 if quick else j != some:
+                    continue
+                add(runner, mem, fm, ft, after[(i + j) % len(after)] if quick else r.choice(after + [r.randrange(0, 50000)]))
+        # the same programs close below their limits, never cancelled: their own verdict
+        add(runner, mems[0], 0.95, 0, -1)
+        if not quick:
+            add(runner, mems[-1], 0.99, 0.85, -1)
+    for runner in unlimited:
+        for j, mem in enumerate(mems[1:] if quick else mems):
+            add(runner, mem, 0, 0, after[j % len(after)])
+        add(runner, mems[0], 0, 1, 1000)
+    obs = c.run_harness(exe, [{k: v for k, v in x.items() if not k.startswith("_")} for x in cases], env=env, timeout=1500)
+    for x, o in zip(cases, obs):
+        if "harness_err" in o:
+            raise RuntimeError(o["harness_err"])
+        runner, cancel = x["runner"], x["cancel_after_ready_us"]
+        canon = lambda what, **kw: dict({"kind": "cancel-profile", "what": what, "runner": runner, "cancel_after_profile_reached_us": cancel,
+                                         "peak_fraction_of_memory_limit": x["_fm"], "cpu_fraction_of_time_limit": x["_ft"]}, **kw)
+        replay = {"case": x, "observed": o,
+                  "history": "%s runner; program touches and keeps %d bytes%s, reports it, then sleeps; Limit{Memory %d bytes, Time %d ms}; context %s"
+                             % (runner, x["mem_bytes"], ", burns %d ms of CPU" % x["cpu_ms"] if x["cpu_ms"] else "", x["limit_mem"], x["limit_time_ms"],
+                                "cancelled %d us after the report" % cancel if cancel >= 0 else "never cancelled")}
+        if o.get("hang"):
+            c.count(("profile", runner, x["_fm"], x["_ft"], cancel), klass="profile:" + runner)
+            c.finding_or_violation(canon("the run did not return within 30 s"), replay, klass="profile-hang:" + runner)
+            continue
+        if not o.get("ready"):
+            raise RuntimeError("profile case %r: the program never reported its profile: %r" % (x, o))
+        st = o["status"]
+        # did the program stay within the limits of the run, by the runner's own measurement?
+        within_mem = o["memory"] <= x["limit_mem"]
+        within_time = o["time_us"] <= x["limit_time_ms"] * 1000
+        cancelled = bool(o.get("cancelled"))
+        c.count(("profile", runner, x["mem_bytes"], x["_fm"], x["_ft"], cancel), nontrivial=cancelled and within_mem and within_time,
+                klass="profile:%s:%s" % (runner, "cancelled" if cancelled else "uncancelled"))
+        replay["expected"] = ("Time Limit Exceeded (the program was alive and within its limits when the context was cancelled)" if cancelled
+                              else "Normal, exit 0 (the program's own verdict: it stays within its limits and exits 0)")
+        replay["observed_verdict"] = "%s (exit status %s), memory %s of limit %s, cpu time %s us of limit %s ms" % (
+            STATUS.get(st, st), o["exit"], o["memory"], x["limit_mem"], o["time_us"], x["limit_time_ms"])
+        if not (within_mem and within_time):
+            # the measured usage passed a limit (the calibration was off): a limit verdict is then a genuine one; nothing to compare
+            allowed = {2} | ({3} if not within_mem else set())
+            if st not in allowed:
+                c.finding_or_violation(canon("a run whose usage passed a limit ended with another verdict", status=st), replay, klass="profile-over:" + runner)
+            continue
+        if cancelled:
+            if st == 1:
+                c.finding_or_violation(canon("the cancellation was lost", status=st), replay, klass="profile-lost:" + runner)
+            elif st != 2:
+                c.finding_or_violation(canon("a cancelled run of a program within its limits is not reported as Time Limit Exceeded",
+                                             status=st, verdict=STATUS.get(st, str(st)), error=o["errmsg"][:80]), replay, klass="profile-verdict:" + runner)
+            if o.get("cancel_to_return_us", 0) > RETURN_BOUND_US:
+                c.finding_or_violation(canon("the run did not return promptly after the cancellation", cancel_to_return_us=o["cancel_to_return_us"]),
+                                       replay, klass="profile-late:" + runner)
+            if o["program_alive"] and runner != "container_after":
+                c.finding_or_violation(canon("the program is still alive after the run returned"), replay, klass="profile-alive:" + runner)
+        else:
+            if st != 1 or o["exit"] != 0:
+                c.finding_or_violation(canon("an uncancelled run of a program within its limits did not end Normal", status=st, verdict=STATUS.get(st, str(st))),
+                                       replay, klass="profile-own:" + runner)
+    if cases:
+        c.sample({"case": {k: v for k, v in cases[4].items() if not k.startswith("_")}, "observed": obs[4]})
+    c.cov["profile_runs"] = len(cases)
+    c.cov["profile_wall_s"] = round(time.time() - t_start, 1)
+    c.log("resource profiles: %d calibration runs, %d runs, %.1f s" % (len(cal), len(cases), time.time() - t_start))
+    c.cov["profile_calibration"] = {"%s/%d" % k: v for k, v in peak.items()}
